@@ -299,7 +299,27 @@ impl FilePersist {
 
         let mut shards = self.shards.write();
 
+        // A crash between saving the shard metadata and rewriting the WAL (the last two
+        // steps of `flush`) leaves the flushed updates in a batch AND in the WAL. Replaying
+        // them again would apply them twice, so skip entries whose logical time (unique per
+        // write request, and a flush takes the whole buffer) is already in a batch.
+        let mut flushed_times: HashMap<String, std::collections::HashSet<u64>> = HashMap::new();
+
         for entry in entries {
+            if !flushed_times.contains_key(&entry.shard) {
+                let mut times = std::collections::HashSet::new();
+                if let Some(state) = shards.get(&entry.shard) {
+                    for batch_ref in &state.meta.batches {
+                        for update in self.read_batch(batch_ref)? {
+                            times.insert(update.time);
+                        }
+                    }
+                }
+                flushed_times.insert(entry.shard.clone(), times);
+            }
+            if flushed_times[&entry.shard].contains(&entry.update.time) {
+                continue;
+            }
             let state = shards
                 .entry(entry.shard.clone())
                 .or_insert_with(|| ShardState {
